@@ -6,6 +6,15 @@ against a stub CPython and scheduler-visible CAS / mutex / assert primitives
 calls within a preemption bound (one forked child per execution, fair treatment
 of spin loops) and prints each distinct event log; the monitor below judges the
 logs against the five clauses of the statement.
+
+Dimensions of a scenario: libraries x init kinds x thread programs x INITIAL
+WORLD ("" Python not initialised; P already initialised, GIL free; H<k> = P and
+thread k makes its calls while owning the GIL) x COMPILE VARIANT of the lock
+code (py312 / py311 `int` lock on tp_version_tag / msvc arms against a fake
+<Windows.h>).  The statement has no precondition on who owns the GIL ("any
+interleaving of threads making first calls"), so the H worlds are judged by the
+same monitor; _cffi_carefully_make_gil's comment "It assumes that we don't hold
+the GIL before" is a restriction the statement does not carry.
 """
 import os
 import subprocess
@@ -19,27 +28,50 @@ META = dict(
     engine="E4-sched-C", level="model_checking",
     technique="stateless model checking of the unchanged _embedding.h C text under a controlled scheduler: all "
               "schedules up to a preemption bound (fair spin-loop yields), 2-3 threads x 1-2 libraries x init "
-              "scenarios (ok / failing / recursive / cross-library / GIL released), judged by a monitor of the statement",
+              "scenarios (ok / failing / recursive / cross-library / GIL released) x initial world (Python not yet / "
+              "already initialised / a first caller that owns the GIL) x 3 compile variants of the lock code, judged "
+              "by a monitor of the statement",
     text="Every scheduling decision is at a CAS, barrier, mutex operation, assert (the spin loop's only statement), "
          "GIL operation or stub-Python call; between them the code is sequential.  All schedules with <= 2 preemptions "
          "(quick: 1-2) of the listed scenarios are executed, each in a fresh process; a thread that spins is not "
-         "rescheduled until another thread moved, and 'only spinners can move' is reported as livelock.",
+         "rescheduled until another thread moved, and 'only spinners can move' is reported as livelock.  Initial "
+         "worlds: fresh process (the first caller runs Py_InitializeEx), P = Python already initialised with the GIL "
+         "free (Py_InitializeEx must then not run at all), H = P with one or more callers that own the GIL during "
+         "their calls (class_histogram world_*).  The #if arms for Python < 3.12 (int spin lock on tp_version_tag) "
+         "and for _MSC_VER (InterlockedCompareExchangePointer, CRITICAL_SECTION; fake <Windows.h>) are compiled and "
+         "explored as separate worlds (variant_*).  A deadlock is reported with its wait-for graph, classified in "
+         "the signature (startup-lock-cycle / gil-holder-waits-for-startup-lock).  Conformance runs of a REAL "
+         "embedded library: C host (Python not initialised), Python host with ctypes.CDLL callers (world P), and a "
+         "deterministic handshake run in which a ctypes.PyDLL caller (GIL held) makes its first call while the init "
+         "code runs (world H) next to its CDLL control (real_host_*).",
     note="trusted base: the stub CPython in harness/c28 (GIL as a mutex, Py_InitializeEx leaves the caller holding it, "
          "PyEval_EvalCode runs a scripted init code, C calls from Python release the GIL); interleavings are "
          "sequentially consistent -- x86-TSO store buffering and the write/read barrier pairing are outside the model")
 
 HDIR = os.path.join(build.HARNESS, "c28")
 
+# compile-time variants of the lock code of _embedding.h (audit gap 2).  Both libraries of one world are
+# compiled with the same variant (they share one stub libpython, hence one PY_VERSION_HEX).
+VARIANTS = {
+    # Python >= 3.12, gcc builtins, pthread mutex: pointer-sized spin lock on PyCapsule_Type.tp_as_buffer
+    "py312": [],
+    # Python 3.8-3.11: `int` spin lock (-42) on PyCapsule_Type.tp_version_tag + assert on tp_flags
+    "py311": ["-DFAKE_PY_VERSION_HEX=0x030B0000"],
+    # the `#ifdef _MSC_VER` arms: InterlockedCompareExchangePointer(l,n,o) == (o), CRITICAL_SECTION,
+    # Get/SetLastError, against harness/c28/fakewin/Windows.h (CFFI_MESSAGEBOX is a documented user switch)
+    "msvc": ["-D_MSC_VER=1900", "-DCFFI_MESSAGEBOX=0", "-I", os.path.join(HDIR, "fakewin")],
+}
 
-def build_world():
-    out = os.path.join(build.scratch(), "c28")
+
+def build_world(variant="py312"):
+    out = os.path.join(build.scratch(), "c28-" + variant)
     os.makedirs(out, exist_ok=True)
     emb = os.path.join(build.REPO, "src", "cffi", "_embedding.h")
     inc = ["-I", os.path.join(HDIR, "fakepy"), "-I", HDIR, "-I", os.path.join(build.REPO, "src", "cffi")]
     objs = []
     for lib in (0, 1):
         o = os.path.join(out, "lib%d.o" % lib)
-        cmd = ["gcc", "-O1", "-g", "-pthread", "-w"] + inc + [
+        cmd = ["gcc", "-O1", "-g", "-pthread", "-w"] + inc + VARIANTS[variant] + [
             "-DLIBID=%d" % lib, '-DEMBEDDING_H="%s"' % emb, "-c", os.path.join(HDIR, "lib.c"), "-o", o]
         p = subprocess.run(cmd, stdout=subprocess.PIPE, stderr=subprocess.STDOUT, text=True)
         if p.returncode != 0:
@@ -60,7 +92,18 @@ def build_world():
 
 
 def scenarios(ctx):
-    """(nlibs, init kinds, bound, programs)"""
+    """(nlibs, init kinds, bound, programs, world, variant)
+
+    world: "" = Python not initialised, nobody owns the GIL (the first caller initialises Python);
+           "P" = Python already initialised, GIL free; "H<k..>" = P and the listed threads make their calls
+           while owning the GIL.  variant: key of VARIANTS."""
+    scs = [tuple(sc) + ("", "py312")[len(sc) - 4:] for sc in _scenarios(ctx)]
+    # one scenario = one sequential depth-first search in one pool worker: start the long ones first
+    # (3 threads, then the higher preemption bounds); the order has no influence on what is explored
+    return sorted(scs, key=lambda sc: (-len(sc[3]), -sc[2], -sc[0]))
+
+
+def _scenarios(ctx):
     out = []
     one = ["O", "F", "R", "G", "S"]
     if ctx.quick:
@@ -74,6 +117,28 @@ def scenarios(ctx):
             out.append((2, kinds, 1, ("0", "1")))
         out.append((2, "XF", 1, ("01", "10")))
         out.append((2, "XO", 2, ("0", "1")))
+        # --- initial world states (audit gap 1) ---
+        for k in one:
+            out.append((1, k + "O", 1, ("0", "0"), "P"))
+        for kinds in ("OO", "FO"):
+            out.append((1, kinds, 1, ("s0", "0"), "P"))
+        out.append((1, "OO", 1, ("0", "0", "0"), "P"))
+        for kinds in ("OO", "FO", "XO"):
+            out.append((2, kinds, 1, ("0", "1"), "P"))
+        for kinds, progs, world in (("OO", ("0", "0"), "H0"), ("OO", ("0", "0"), "H1"), ("OO", ("0", "0"), "H01"),
+                                    ("FO", ("0", "0"), "H0"), ("RO", ("0", "0"), "H0"), ("GO", ("0", "0"), "H1"),
+                                    ("OO", ("0", "s"), "H0"), ("FO", ("0", "0", "0"), "H0")):
+            out.append((1, kinds, 1, progs, world))
+        for kinds in ("OO", "XO", "OX"):
+            out.append((2, kinds, 1, ("0", "1"), "H0"))
+        # --- the other #if arms of the lock code (audit gap 2) ---
+        for v in ("py311", "msvc"):
+            for kinds in ("OO", "FO", "RO"):
+                out.append((1, kinds, 1, ("0", "0"), "", v))
+            out.append((1, "OO", 1, ("s0", "0"), "", v))
+            out.append((1, "FO", 1, ("0", "0", "0"), "", v))       # (OO with 3 threads: thorough tier)
+            out.append((2, "OO", 1, ("0", "1"), "", v))
+            out.append((1, "OO", 1, ("0", "0"), "P", v))
     else:
         for k in one:
             out.append((1, k + "O", 3, ("0", "0")))
@@ -87,7 +152,37 @@ def scenarios(ctx):
                 out.append((2, a + b, 2, ("0", "1")))
                 out.append((2, a + b, 1, ("01", "10")))
                 out.append((2, a + b, 1, ("0", "1", "0")))
+        # --- initial world states (audit gap 1) ---
+        for k in one:
+            out.append((1, k + "O", 2, ("0", "0"), "P"))
+            for progs in (("00", "0"), ("s0", "0"), ("0s", "s"), ("s", "s"), ("0", "0", "0"), ("s", "0", "00")):
+                out.append((1, k + "O", 1, progs, "P"))
+            for world in ("H0", "H1", "H01"):
+                out.append((1, k + "O", 2, ("0", "0"), world))
+            for progs in (("00", "0"), ("0", "00"), ("s0", "0"), ("0", "s"), ("s", "0")):
+                out.append((1, k + "O", 1, progs, "H0"))
+            for world in ("H0", "H2", "H01"):
+                out.append((1, k + "O", 1, ("0", "0", "0"), world))
+        for a in two:
+            for b in two:
+                out.append((2, a + b, 1, ("0", "1"), "P"))
+                out.append((2, a + b, 1, ("0", "1"), "H0"))
+        # --- the other #if arms of the lock code (audit gap 2) ---
+        for v in ("py311", "msvc"):
+            for k in one:
+                out.append((1, k + "O", 2, ("0", "0"), "", v))
+                out.append((1, k + "O", 1, ("s0", "0"), "", v))
+                out.append((1, k + "O", 1, ("0", "0", "0"), "", v))
+                out.append((1, k + "O", 1, ("0", "0"), "P", v))
+            out.append((1, "OO", 1, ("0", "0"), "H0", v))
+            for kinds in ("OO", "FO", "OF", "XO", "XX", "RX", "GF"):
+                out.append((2, kinds, 1, ("0", "1"), "", v))
+            out.append((2, "OO", 1, ("01", "10"), "", v))
     return out
+
+
+def init_arg(sc):
+    return sc[1] + (":" + sc[4] if sc[4] else "")
 
 
 def monitor(log):
@@ -96,12 +191,15 @@ def monitor(log):
     bad = []
     info = []
     pyinit = 0
+    deadlock = None
     initstart = {}
     initend = {}
     calls = {}
     for e in evs:
         k = e[0]
-        if k == "PYINIT":
+        if k == "PREINIT":
+            pyinit = 1           # world P / H: the process's Python is already initialised
+        elif k == "PYINIT":
             pyinit += 1
             if pyinit > 1:
                 bad.append("python-initialised-twice")
@@ -140,26 +238,47 @@ def monitor(log):
                 bad.append("cffi_start_python-wrong-status")
         elif k in ("DEADLOCK", "LIVELOCK", "HORIZON"):
             bad.append("call-does-not-terminate")
+            deadlock = deadlock_shape(e[1:]) if k == "DEADLOCK" else k.lower()
         elif k == "CRASH":
             bad.append("crash")
         elif k == "ASSERTFAIL":
             info.append("assert-failed:" + " ".join(e[2:]))
         elif k in ("GIL-RELEASE-NOT-OWNER", "UNLOCK-NOT-OWNER", "MUTEX-REINIT-WHILE-HELD",
-                   "PYINIT-GIL-ALREADY-HELD", "INITCODE-WITHOUT-GIL", "GILSTATE-BEFORE-PYINIT"):
+                   "PYINIT-GIL-ALREADY-HELD", "INITCODE-WITHOUT-GIL", "GILSTATE-BEFORE-PYINIT",
+                   "GIL-LEAKED", "GIL-LOST-BY-HOLDER"):
             bad.append("python-api-misuse:" + k)
     if not any(b == "call-does-not-terminate" or b == "crash" for b in bad):
         if any(v != 0 for v in calls.values()):
             bad.append("call-does-not-terminate")
+    if deadlock:
+        info.append("deadlock:" + deadlock)
     return sorted(set(bad)), info
 
 
-_EXE = [None]
+def deadlock_shape(waits):
+    """Classify the wait-for graph the explorer prints with a DEADLOCK event
+    (`<tid>:m<owner>[+G]` waits for a start-up mutex [while owning the GIL], `<tid>:g<owner>` waits for the GIL)."""
+    w = {}
+    for item in waits:
+        tid, what = item.split(":")
+        w[tid] = what
+    for tid, what in sorted(w.items()):
+        if what.startswith("m") and what.endswith("+G"):
+            owner = what[1:-2]
+            if w.get(owner, "") == "g" + tid:
+                return "gil-holder-waits-for-startup-lock"
+    if w and all(x.startswith("m") and not x.endswith("+G") for x in w.values()):
+        return "startup-lock-cycle"
+    return "other"
+
+
+_EXE = {}
 
 
 def work(sc):
-    nlibs, kinds, bound, progs = sc
+    nlibs, kinds, bound, progs, world, variant = sc
     max_exec = 0
-    cmd = [_EXE[0], str(nlibs), kinds, str(bound), str(max_exec)] + list(progs)
+    cmd = [_EXE[variant], str(nlibs), init_arg(sc), str(bound), str(max_exec)] + list(progs)
     p = subprocess.run(cmd, stdout=subprocess.PIPE, stderr=subprocess.PIPE, text=True)
     if p.returncode != 0:
         raise InfraError("explorer failed for %r: rc=%s %s %s" % (sc, p.returncode, p.stdout[-500:], p.stderr[-500:]))
@@ -180,17 +299,53 @@ def work(sc):
     infos = set()
     for count, choices, log in logs:
         bad, info = monitor(log)
-        infos.update(info)
+        shape = [i.split(":", 1)[1] for i in info if i.startswith("deadlock:")]
+        infos.update(i for i in info if not i.startswith("deadlock:"))
         if bad:
-            viol.append({"scenario": list(sc), "choices": choices, "bad": bad, "log": log, "schedules": count})
+            viol.append({"scenario": list(sc), "choices": choices, "bad": bad, "log": log, "schedules": count,
+                         "deadlock": shape[0] if shape else None})
     return {"stat": {k: int(v) for k, v in stat.items()}, "viol": viol, "info": sorted(infos),
             "sample": {"scenario": list(sc), "choices": logs[0][1], "log": logs[0][2]} if logs else None}
 
 
-def real_library_runs(ctx):
+def _judge_real(kind, n, returncode, stdout, logpath):
+    try:
+        logtext = open(logpath).read()
+    except OSError:
+        logtext = None
+    results = [int(l.split()[1]) for l in stdout.splitlines() if l.startswith("result ")]
+    again = [int(l.split()[1]) for l in stdout.splitlines() if l.startswith("again ")]
+    want = 0 if kind == "fail" else 8
+    problems = []
+    if returncode == -14:
+        problems.append("did not terminate (killed by its own watchdog alarm)")
+    elif returncode != 0:
+        problems.append("exit status %s" % returncode)
+    if logtext is None or logtext.count("init-start") != 1:
+        problems.append("init code ran %d times" % (logtext.count("init-start") if logtext else 0))
+    if results != [want] * n:
+        problems.append("results %r, expected %r" % (results, [want] * n))
+    if again != [0 if kind == "fail" else 2]:
+        problems.append("later call returned %r" % (again,))
+    if kind == "recursive" and "recursive-result 4" not in (logtext or ""):
+        problems.append("recursive call from the init code did not return 4")
+    return problems
+
+
+HELD_WATCHDOG = 20      # seconds; a normal python-hosted run takes < 1 s
+
+
+def real_library_runs(ctx, only=None):
     """Conformance of the stub world: a REAL embedded library (built by cffi from the working tree,
-    real CPython, real pthreads released by a barrier) must show behaviour the stub-world exploration
-    also produced at the granularity init-start / init-end / results.  Returns (runs, mismatches)."""
+    real CPython, real threads) must show behaviour the stub-world exploration also produced at the
+    granularity init-start / init-end / results.  Three hosts:
+      c       main program in C, Python not initialised, pthreads released by a barrier (world "")
+      python  the library loaded with ctypes.CDLL into a running /venv/bin/python, callers are Python threads
+              released by a barrier, the GIL is free during the calls (world P)
+      held    python host; by a handshake with the init code, a second thread makes its first call through
+              ctypes.PyDLL -- owning the GIL -- while the init code runs (world H), and `ctrl`, the same
+              handshake with a CDLL caller.  Deterministic (no sleeps; switch interval 1000 s).
+    Returns (runs, mismatches, runs per host)."""
     import sysconfig
     d = os.path.join(build.scratch(), "c28real")
     os.makedirs(d, exist_ok=True)
@@ -206,51 +361,101 @@ def real_library_runs(ctx):
                        stdout=subprocess.PIPE, stderr=subprocess.STDOUT, text=True)
     if p.returncode != 0:
         raise InfraError("cannot link the real embedding main:\n" + p.stdout[-2000:])
+    so = os.path.join(d, "libc28real.so")
+    host = os.path.join(build.HARNESS, "c28_real", "host.py")
     runs = 0
+    per_host = {"c": 0, "python": 0, "held": 0, "ctrl": 0}
     bad = []
+
+    def envfor(kind, log):
+        return dict(env, C28_KIND=kind, C28_LOG=log, PYTHONPATH=env.get("PYTHONPATH", "") + os.pathsep + d)
+
+    # world H (and its control): started now, collected at the end -- the hanging one costs no wall time
+    held_jobs = []
+    for mode in ("held", "ctrl"):
+        for rep in range(1 if ctx.quick else 3):
+            log = os.path.join(d, "log-%s-%d.txt" % (mode, rep))
+            held_jobs.append((mode, log, subprocess.Popen(
+                [build.PY, host, so, mode, "-", str(HELD_WATCHDOG)], env=envfor("handshake", log),
+                stdout=subprocess.PIPE, stderr=subprocess.PIPE, text=True)))
+
+    def collect_held():
+        n = 0
+        for mode, log, job in held_jobs:
+            try:
+                out, err = job.communicate(timeout=HELD_WATCHDOG + 60)
+            except subprocess.TimeoutExpired:
+                job.kill()
+                raise InfraError("python-hosted run ignored its watchdog alarm")
+            n += 1
+            per_host[mode] += 1
+            problems = _judge_real("handshake", 2, job.returncode, out, log)
+            if problems:
+                bad.append({"kind": "handshake", "threads": 2, "host": mode, "problems": problems,
+                            "stderr": err[-300:]})
+        return n
+
+    if only == "held":
+        runs += collect_held()
+        return runs, bad, per_host
     reps = 2 if ctx.quick else 10
-    for kind in ("ok", "fail", "recursive", "slow"):
-        for n in (1, 2, 3):
-            for rep in range(reps):
-                log = os.path.join(d, "log-%s-%d-%d.txt" % (kind, n, rep))
-                env2 = dict(env, C28_KIND=kind, C28_LOG=log,
-                            PYTHONPATH=env.get("PYTHONPATH", "") + os.pathsep + d)
-                runs += 1
-                try:
-                    p = subprocess.run([exe, str(n)], env=env2, stdout=subprocess.PIPE, stderr=subprocess.PIPE,
-                                       text=True, timeout=60)
-                except subprocess.TimeoutExpired:
-                    # a real embedded library whose calls never return (a normal run takes < 1 s)
-                    bad.append({"kind": kind, "threads": n, "problems": ["did not terminate within 60 s"], "stderr": ""})
-                    if len(bad) >= 3:
-                        return runs, bad
-                    continue
-                try:
-                    lines = open(log).read().split()
-                except OSError:
-                    lines = []
-                results = [int(l.split()[1]) for l in p.stdout.splitlines() if l.startswith("result ")]
-                again = [int(l.split()[1]) for l in p.stdout.splitlines() if l.startswith("again ")]
-                want = 0 if kind == "fail" else 8
-                problems = []
-                if p.returncode != 0:
-                    problems.append("exit status %s" % p.returncode)
-                if open(log).read().count("init-start") != 1 if os.path.exists(log) else True:
-                    problems.append("init code ran %d times" % (open(log).read().count("init-start") if os.path.exists(log) else 0))
-                if results != [want] * n:
-                    problems.append("results %r, expected %r" % (results, [want] * n))
-                if again != [0 if kind == "fail" else 2]:
-                    problems.append("later call returned %r" % (again,))
-                if kind == "recursive" and "recursive-result 4" not in open(log).read():
-                    problems.append("recursive call from the init code did not return 4")
-                if problems:
-                    bad.append({"kind": kind, "threads": n, "problems": problems, "stderr": p.stderr[-300:]})
-    return runs, bad
+    for hostkind, ns, nreps in (("c", (1, 2, 3), reps), ("python", (2, 3), 1 if ctx.quick else 5)):
+        for kind in ("ok", "fail", "recursive", "slow"):
+            for n in ns:
+                for rep in range(nreps):
+                    log = os.path.join(d, "log-%s-%s-%d-%d.txt" % (hostkind, kind, n, rep))
+                    cmd = [exe, str(n)] if hostkind == "c" else [build.PY, host, so, "free", str(n), "60"]
+                    runs += 1
+                    per_host[hostkind] += 1
+                    try:
+                        p = subprocess.run(cmd, env=envfor(kind, log), stdout=subprocess.PIPE,
+                                           stderr=subprocess.PIPE, text=True, timeout=90)
+                    except subprocess.TimeoutExpired:
+                        # a real embedded library whose calls never return (a normal run takes < 1 s)
+                        bad.append({"kind": kind, "threads": n, "host": hostkind,
+                                    "problems": ["did not terminate within 90 s"], "stderr": ""})
+                        if len(bad) >= 3:
+                            for _, _, job in held_jobs:
+                                job.kill()
+                            return runs, bad, per_host
+                        continue
+                    problems = _judge_real(kind, n, p.returncode, p.stdout, log)
+                    if problems:
+                        bad.append({"kind": kind, "threads": n, "host": hostkind, "problems": problems,
+                                    "stderr": p.stderr[-300:]})
+    runs += collect_held()
+    return runs, bad, per_host
+
+
+def signature(sc, clause, v):
+    """Structured classification of one violated clause.  `init` is the init kinds of the libraries in play (as
+    before the world / variant dimensions existed, so that one root cause keeps one signature across worlds);
+    the initial world and the compile variant are extra keys, present only when they are not the default."""
+    nlibs, kinds, bound, progs, world, variant = sc
+    sig = {"clause": clause.split(":")[0], "init": kinds[:nlibs]}
+    if world:
+        sig["world"] = world[0]                   # "P" or "H"
+    if world.startswith("H"):
+        sig["gil_held_caller"] = True
+    if variant != "py312":
+        sig["variant"] = variant
+    if clause == "call-does-not-terminate" and v.get("deadlock"):
+        sig["deadlock"] = v["deadlock"]
+    return sig
 
 
 def run(ctx):
-    _EXE[0] = build_world()
     scs = scenarios(ctx)
+    # development aid (never used by a registered command): --opt only=worlds|variants|base restricts the scenario
+    # list, --opt noreal=1 skips the real-library runs; such a run says exhaustive=False.
+    only = getattr(ctx, "opts", {}).get("only")
+    noreal = bool(getattr(ctx, "opts", {}).get("noreal"))
+    if only:
+        keep = {"worlds": lambda sc: sc[4] != "" and sc[5] == "py312", "variants": lambda sc: sc[5] != "py312",
+                "base": lambda sc: sc[4] == "" and sc[5] == "py312"}[only]
+        scs = [sc for sc in scs if keep(sc)]
+    for variant in sorted(set(sc[5] for sc in scs)):
+        _EXE[variant] = build_world(variant)
     tot = {"executions": 0, "decisions": 0, "distinct": 0, "crashes": 0}
     maxdec = 0
     infos = set()
@@ -264,14 +469,29 @@ def run(ctx):
         ctx.count("libs_%d" % sc[0], r["stat"]["executions"])
         ctx.count("threads_%d" % len(sc[3]), r["stat"]["executions"])
         ctx.count("init_" + sc[1][:sc[0]], r["stat"]["executions"])
+        ctx.count("world_" + {"": "fresh", "P": "python_preinitialised", "H": "gil_held_caller"}[sc[4][:1]],
+                  r["stat"]["executions"])
+        ctx.count("variant_" + sc[5], r["stat"]["executions"])
+        if sc[4].startswith("H"):
+            # vacuity of the H worlds: schedules in which the GIL holder was NOT the initialising thread
+            ctx.count("gil_held_caller_distinct_logs", r["stat"]["distinct"])
+        if os.environ.get("C28_DEBUG"):
+            ctx.log("%r: %s" % (sc, r["stat"]))
         if r["sample"]:
             ctx.sample(r["sample"])
         for v in r["viol"]:
             for clause in v["bad"]:
-                ctx.violation({"clause": clause.split(":")[0], "init": sc[1][:sc[0]]}, v)
-    real_runs, real_bad = real_library_runs(ctx)
+                ctx.violation(signature(sc, clause, v), v)
+    real_runs, real_bad, per_host = (0, [], {}) if noreal else real_library_runs(ctx)
+    for h, n in sorted(per_host.items()):
+        ctx.count("real_host_" + h, n)
     for b in real_bad:
-        ctx.violation({"clause": "real-embedded-library", "init": b["kind"]}, {"real": True, "what": b})
+        sig = {"clause": "real-embedded-library", "init": b["kind"]}
+        if b["host"] != "c":
+            sig["world"] = "H" if b["host"] == "held" else "P"
+        if b["host"] == "held":
+            sig["gil_held_caller"] = True
+        ctx.violation(sig, {"real": True, "what": b})
     cov = {
         "real_embedded_library_runs": real_runs,
         "states": tot["decisions"],
@@ -281,13 +501,17 @@ def run(ctx):
         "evaluations": tot["executions"],
         "distinct_nontrivial": tot["distinct"],
         "rule": "one evaluation = one complete schedule of one scenario (libraries x init kinds x thread programs) run in "
-                "a fresh process over the real _embedding.h text; states = scheduling decisions; distinct_nontrivial = "
-                "distinct event logs summed over scenarios",
+                "x initial world (fresh / Python pre-initialised / GIL-holding caller) x compile variant (py312 / py311 / "
+                "msvc arms), run in a fresh process over the real _embedding.h text; states = scheduling decisions; "
+                "distinct_nontrivial = distinct event logs summed over scenarios",
         "scenarios": len(scs),
         "max_depth": maxdec,
         "preemption_bounds": sorted(set(s[2] for s in scs)),
+        "initial_worlds": sorted(set(s[4] or "fresh" for s in scs)),
+        "compile_variants": sorted(set(s[5] for s in scs)),
+        "real_embedded_library_runs_by_host": dict(per_host),
         "information_events": sorted(infos),
-        "exhaustive": True,
+        "exhaustive": not (only or noreal),
     }
     return ctx.finish(cov, ["stub CPython (harness/c28/fakepy, world.c) is the trusted base",
                             "sequentially consistent interleavings; spin loops scheduled fairly"])
@@ -297,13 +521,15 @@ def replay(detail):
     if detail.get("real"):
         class _C(object):
             quick = True
-        runs, bad = real_library_runs(_C())
-        print(runs, bad)
+        only = "held" if detail.get("what", {}).get("host") in ("held", "ctrl") else None
+        runs, bad, per_host = real_library_runs(_C(), only)
+        print(runs, per_host, bad)
         return 1 if bad else 0
-    exe = build_world()
-    sc = detail["scenario"]
-    nlibs, kinds, bound, progs = sc
-    cmd = [exe, str(nlibs), kinds, str(bound), "0", "--replay", detail["choices"]] + list(progs)
+    sc = tuple(detail["scenario"])
+    sc = sc + ("", "py312")[len(sc) - 4:]          # replay files written before the world / variant dimensions
+    nlibs, kinds, bound, progs, world, variant = sc
+    exe = build_world(variant)
+    cmd = [exe, str(nlibs), init_arg(sc), str(bound), "0", "--replay", detail["choices"]] + list(progs)
     p = subprocess.run(cmd, stdout=subprocess.PIPE, stderr=subprocess.PIPE, text=True)
     print(p.stdout)
     lines = p.stdout.splitlines()
